@@ -1157,12 +1157,14 @@ func (vm *VM) xOpCallCompiled(cfunc *CompiledFunction, numArgs, flags int) error
 		}
 	}
 
-	frame := &(vm.frames[vm.frameIndex])
-	vm.frameIndex++
-
-	if vm.frameIndex > frameSize-1 {
+	// check before taking the frame: when the error is caught by a handler of
+	// the current frame, frameIndex must still belong to the current frame.
+	if vm.frameIndex+1 > frameSize-1 {
 		return ErrStackOverflow
 	}
+
+	frame := &(vm.frames[vm.frameIndex])
+	vm.frameIndex++
 
 	frame.fn = cfunc
 	frame.freeVars = cfunc.Free
